@@ -21,11 +21,31 @@ structure Settings where
   sharedDefaults : List String := []     -- `TypeSpace.defaults` (generic default fns in use)
 deriving Repr, Inhabited
 
+/-- `#[serde(..)]` arguments typify puts on a struct member -/
+inductive SerdeArg where
+  | rename (s : String)
+  | flatten
+  | default                         -- `default`
+  | defaultFn (path : String)       -- `default = "defaults::…"`
+  | skipIf (path : String)          -- `skip_serializing_if = "…"`
+  | panics                          -- typify panics while rendering the default (defaults.rs:348/361)
+deriving Repr, DecidableEq, Inhabited
+
+def quoteStr' (s : String) : String := "\"" ++ s ++ "\""
+
+def SerdeArg.render : SerdeArg → String
+  | .rename s => "rename=" ++ quoteStr' s
+  | .flatten => "flatten"
+  | .default => "default"
+  | .defaultFn p => "default=" ++ quoteStr' p
+  | .skipIf p => "skip_serializing_if=" ++ quoteStr' p
+  | .panics => "default=<panic>"
+
 structure FieldS where
   name : String
   isPub : Bool
   ty : String
-  serde : List String
+  serde : List SerdeArg
 deriving Repr, Inhabited
 
 structure VariantS where
@@ -157,29 +177,27 @@ def defaultFn (σ : Space) (typeName propName : String) (ty : Id) (d : Json) : O
   | none => none
 
 /-- serde arguments of a struct member and the custom default fn it adds (structs.rs:336-418) -/
-def fieldSerde (st : Settings) (σ : Space) (typeName : String) (p : Field) : List String × Option String :=
-  let naming := match p.rename with
-    | .rename s => ["rename=" ++ quoteStr s]
-    | .flatten => ["flatten"]
+def fieldSerde (st : Settings) (σ : Space) (typeName : String) (p : Field) : List SerdeArg × Option String :=
+  let naming : List SerdeArg := match p.rename with
+    | .rename s => [.rename s]
+    | .flatten => [.flatten]
     | .none => []
   match p.state with
   | .required => (naming, none)
   | .optional =>
     (match σ.get p.ty with
-     | some ⟨.option _, _, _⟩ =>
-       (naming ++ ["default", "skip_serializing_if=" ++ quoteStr "::std::option::Option::is_none"], none)
-     | some ⟨.vec _, _, _⟩ =>
-       (naming ++ ["default", "skip_serializing_if=" ++ quoteStr "::std::vec::Vec::is_empty"], none)
+     | some ⟨.option _, _, _⟩ => (naming ++ [.default, .skipIf "::std::option::Option::is_none"], none)
+     | some ⟨.vec _, _, _⟩ => (naming ++ [.default, .skipIf "::std::vec::Vec::is_empty"], none)
      | some ⟨.map k v, _, _⟩ =>
        (match σ.get k, σ.get v with
         | some ⟨.string, _, _⟩, some ⟨.jsonValue, _, _⟩ =>
-          (naming ++ ["default", "skip_serializing_if=" ++ quoteStr "::serde_json::Map::is_empty"], none)
-        | _, _ => (naming ++ ["default", "skip_serializing_if=" ++ quoteStr (st.mapType ++ "::is_empty")], none))
-     | _ => (naming ++ ["default"], none))
+          (naming ++ [.default, .skipIf "::serde_json::Map::is_empty"], none)
+        | _, _ => (naming ++ [.default, .skipIf (st.mapType ++ "::is_empty")], none))
+     | _ => (naming ++ [.default], none))
   | .dflt d =>
     match defaultFn σ typeName p.name p.ty d with
-    | some (fn, custom) => (naming ++ ["default=" ++ quoteStr fn], custom)
-    | none => (naming ++ ["default=<panic>"], none)
+    | some (fn, custom) => (naming ++ [.defaultFn fn], custom)
+    | none => (naming ++ [.panics], none)
 
 def fuel : Nat := 64
 
